@@ -75,7 +75,22 @@ pub fn arb_canon_tt(n: usize) -> BoxedStrategy<Tt> {
         let q = 1 + (q as usize) % total;
         Tt::from_fn(n, |m| (0..n).filter(|v| (m >> v) & 1 != 0).map(|v| w[v]).sum::<usize>() >= q)
     });
-    prop_oneof![6 => arb_tt(n), 1 => few, 2 => sym, 2 => partsym, 1 => vote].boxed()
+    // multiplexer (on the top one or two variables) of self-dual functions of the other variables:
+    // every cofactor satisfies g(!x) = !g(x) although f does not
+    let sdmux = (1usize..=2, arb_tt(n)).prop_map(move |(sel, t)| {
+        let k = n - sel;
+        let low = (1usize << k) - 1;
+        Tt::from_fn(n, |m| {
+            let (hi, lo) = (m >> k, m & low);
+            let base = hi << k;
+            if (lo >> (k - 1)) & 1 == 0 {
+                t.get(base | lo)
+            } else {
+                !t.get(base | (!lo & low))
+            }
+        })
+    });
+    prop_oneof![6 => arb_tt(n), 1 => few, 2 => sym, 2 => partsym, 1 => vote, 1 => sdmux].boxed()
 }
 
 /// a <= b in the library's own ordering (C04 is stated relative to it; C08 says it is numeric)
@@ -524,7 +539,7 @@ fn run_pos(c: &PosCase) -> Verdict {
 pub fn def() -> PropDef {
     PropDef {
         id: "C04",
-        rule: "orbit/orbit-large: cases = (family, group in {P,N,NPN}, f); the library representative must equal (on every assignment) the minimum of the orbit enumerated by the harness's own next-permutation x polarity counter x output bit under its own numeric order, canonization must not panic for any n>=0, and canonizing the representative must return it. Exhaustive for all f of n<=3 (quick) / n<=4 (thorough) x 3 groups x 2 families; generated f (table generator + few-ones + symmetric + partially symmetric (multiplexer of a function symmetric in two variables) + weighted-vote classes) for n in 0..=6 and, in orbit-large, n in {7,8} (runtime-generated walks, multi-word compare). Non-trivial = f is not its own representative (already-canonical inputs are labelled separately). walk: for n in 0..=8 (thorough 9) the swap/flip sequences obtained through the hook are replayed on abstract (perm, mask, out) state: index ranges, every permutation / complementation / NPN element visited exactly once, closed cycles, no swap while a complementation is pending. walkpos: a generated function's representative c is moved by the group element in effect at a chosen compare point of the library's walk (positions: first three, last two, middle-1/middle/middle+1, a block boundary -1/0/+1, uniformly drawn; sequences read through the hook for GENERATION only), so that the walk meets the minimum exactly there; the returned representative must not exceed c, must equal canon(c), and (n<=6) must equal the enumerated orbit minimum; n in 2..=8. invariance: canon(g.f) == canon(f) for a generated group element g applied by the harness, representative <= argument and with the orbit invariant (number of ones, up to complement for N/NPN), and functions with different invariants get different representatives; n up to 8.",
+        rule: "orbit/orbit-large: cases = (family, group in {P,N,NPN}, f); the library representative must equal (on every assignment) the minimum of the orbit enumerated by the harness's own next-permutation x polarity counter x output bit under its own numeric order, canonization must not panic for any n>=0, and canonizing the representative must return it. Exhaustive for all f of n<=3 (quick) / n<=4 (thorough) x 3 groups x 2 families; generated f (table generator + few-ones + symmetric + partially symmetric (multiplexer of a function symmetric in two variables) + weighted-vote + multiplexer-of-self-dual-functions classes) for n in 0..=6 and, in orbit-large, n in {7,8} (runtime-generated walks, multi-word compare). Non-trivial = f is not its own representative (already-canonical inputs are labelled separately). walk: for n in 0..=8 (thorough 9) the swap/flip sequences obtained through the hook are replayed on abstract (perm, mask, out) state: index ranges, every permutation / complementation / NPN element visited exactly once, closed cycles, no swap while a complementation is pending. walkpos: a generated function's representative c is moved by the group element in effect at a chosen compare point of the library's walk (positions: first three, last two, middle-1/middle/middle+1, a block boundary -1/0/+1, uniformly drawn; sequences read through the hook for GENERATION only), so that the walk meets the minimum exactly there; the returned representative must not exceed c, must equal canon(c), and (n<=6) must equal the enumerated orbit minimum; n in 2..=8. invariance: canon(g.f) == canon(f) for a generated group element g applied by the harness, representative <= argument and with the orbit invariant (number of ones, up to complement for N/NPN), and functions with different invariants get different representatives; n up to 8.",
         assumptions: vec![
             "value(), from_blocks()/set_bit() as observation/loading channel",
             "the hook verif_walk_sequences repeats the size dispatch of the real functions; a change to the dispatch itself is only seen by the orbit and invariance sub-checks",
